@@ -3,6 +3,7 @@ package main
 import (
 	"fmt"
 	"os"
+	"sort"
 	"go/types"
 	"strings"
 
@@ -100,6 +101,30 @@ func (e *Engine) invoke(fr *Frame, st *State, recv IfaceV, m *types.Func, args [
 	// symbolic receiver
 	e.oblige(st, fr, "safe.nil", ins, Not(recv.Sym.Nil), "method call on nil interface")
 	st.assume(Not(recv.Sym.Nil))
+	if recv.Sym.Closed && len(recv.Sym.CaseT) > 0 {
+		// the value is one of finitely many concrete alternatives: dispatch on each
+		var ks []string
+		for k := range recv.Sym.CaseT {
+			ks = append(ks, k)
+		}
+		sort.Strings(ks)
+		var all []Outcome
+		for i, k := range ks {
+			dyn := recv.Sym.CaseT[k]
+			s2 := st
+			if i < len(ks)-1 {
+				s2 = st.clone()
+			}
+			s2.assume(Eq(recv.Sym.Tag, Num(int64(e.typeID(dyn)))))
+			fn := e.prog.LookupMethod(dyn, m.Pkg(), m.Name())
+			if fn == nil {
+				e.toolError("no method %s on %s", m.Name(), typeStr(dyn))
+				continue
+			}
+			all = append(all, e.callMethod(fr, s2, fn, recv.Sym.Cases[k], dyn, args, ins)...)
+		}
+		return all
+	}
 	// embedded interfaces: find the contract under the static type, then under the interface that declares the method
 	keys := []string{ifaceKey(staticT, m.Name())}
 	if recv.Sym.T != nil {
@@ -533,6 +558,11 @@ func (e *Engine) pkgOfKey(key string) *types.Package {
 }
 
 func (e *Engine) bindParams(ctx *EvalCtx, con *Contract, args []Value) {
+	for n, i := range con.Alias {
+		if i < len(args) {
+			ctx.bind[n] = args[i]
+		}
+	}
 	for i, name := range con.Params {
 		if i < len(args) && name != "_" && name != "" {
 			ctx.bind[name] = args[i]
